@@ -55,6 +55,7 @@ func enumScenariosFor(prop string, depth int) []Scenario {
 		stalledCaller bool // the caller does not read and its one-slot queue is full: a progressive result is being retried
 		finalRetry    bool // (with stalledCaller) the result being retried is the final one
 		ppt           bool // caller and callee announce payload passthru; results (progressive and final) come with ppt_* options
+		kills         bool // a third session ends the callee or the caller through wamp.session.kill (also with the router's own shutdown reason)
 	}
 	variants := []variant{{calleeCancels: true}, {}}
 	if prop == "C06" || prop == "C13" || prop == "C02" {
@@ -81,6 +82,9 @@ func enumScenariosFor(prop string, depth int) []Scenario {
 	}
 	if prop == "C08" || prop == "C02" || prop == "C03" || prop == "C18" {
 		variants = append(variants, variant{calleeCancels: true, ppt: true})
+	}
+	if prop == "C02" || prop == "C05" || prop == "C13" {
+		variants = append(variants, variant{calleeCancels: true, kills: true})
 	}
 	for _, v := range variants {
 		calleeFeats := []string{"progressive_call_results"}
@@ -187,6 +191,14 @@ func enumScenariosFor(prop string, depth int) []Scenario {
 				msg(1, 48, 1, map[string]any{"progress": true, "timeout": 1000}, "p", []any{6}, map[string]any{}),
 				msg(1, 48, 1, map[string]any{"timeout": 1000}, "p", []any{7}, map[string]any{}),
 				map[string]any{"op": "tick", "ms": 101})
+		}
+		if v.kills {
+			// a session ended by a kill has left like any other: its pending invocations are answered
+			// "callee gone", its calls are forgotten (whatever reason the killer gave)
+			alphabet = append(alphabet,
+				msg(3, 48, 7, map[string]any{}, "wamp.session.kill", []any{map[string]any{"$sid": 2}}, map[string]any{"reason": "wamp.close.system_shutdown"}),
+				msg(3, 48, 8, map[string]any{}, "wamp.session.kill", []any{map[string]any{"$sid": 2}}, map[string]any{}),
+				msg(3, 48, 9, map[string]any{}, "wamp.session.kill", []any{map[string]any{"$sid": 1}}, map[string]any{"reason": "wamp.close.system_shutdown"}))
 		}
 		if v.ppt {
 			alphabet = append(alphabet,
